@@ -35,7 +35,7 @@ pub fn property(id: &str) -> Option<PropertySpec> {
             id: "C03",
             rule: hist::C03_RULE,
             assumptions: vec![ORACLE, SETUP],
-            checks: vec![Box::new(hist::C03Moves), Box::new(hist::C03Histories)],
+            checks: vec![Box::new(hist::C03Moves), Box::new(hist::C03Histories), Box::new(hist::C03LongGames)],
         },
         "C04" => PropertySpec {
             id: "C04",
